@@ -1,5 +1,6 @@
 """C04 - an accepted value comes back complete and unaltered inside the model."""
 import copy
+import sys
 
 from hypothesis import strategies as st
 
@@ -116,8 +117,18 @@ def predicate(case, stats):
 replay_predicate = predicate
 
 
+ATHERIS_RUNS = 8000  # per campaign; shards 0-1 of the thorough tier run one each
+
+
+def atheris_strategy():
+    return cases()
+
+
 def run_shard(ctx, stats):
-    return runner.hyp_run(ctx, stats, cases(), predicate, BUDGET[ctx.tier])
+    failure = runner.hyp_run(ctx, stats, cases(), predicate, BUDGET[ctx.tier])
+    if failure or ctx.quick or ctx.shard >= 2:
+        return failure
+    return runner.atheris_campaign(ctx, stats, sys.modules[__name__], ATHERIS_RUNS)
 
 
 def _names_for(case):
